@@ -282,6 +282,15 @@ func (d *Dynamic) Draw(ctx vxfw.DrawContext) (vxfw.Surface, error) {
 					s.Children[i] = ch
 				}
 			}
+			// A pending scroll can also have moved the cursored
+			// widget above the viewport. Bring its top back into
+			// view
+			if top := s.Children[idx].Origin.Row; top < 0 {
+				for i, ch := range s.Children {
+					ch.Origin.Row -= top
+					s.Children[i] = ch
+				}
+			}
 			d.scroll.wantsCursor = false
 
 		}
@@ -333,7 +342,8 @@ func (d *Dynamic) insertChildren(ctx vxfw.DrawContext, p *vxfw.Surface, ah int) 
 		ss := vxfw.NewSubSurface(colOffset, ah, s)
 		p.Children = slices.Insert(p.Children, 0, ss)
 
-		if d.scroll.top == 0 {
+		if d.scroll.top == 0 || ah <= 0 {
+			// This widget is the top one now
 			break
 		}
 
@@ -390,6 +400,9 @@ func (d *Dynamic) ensureScroll() {
 	}
 	d.scroll.top = d.cursor
 	d.scroll.offset = 0
+	// The cursor is the top widget now. A scroll which is still pending would
+	// move it out of view again
+	d.scroll.pending = 0
 }
 
 var _ vxfw.Widget = &Dynamic{}
